@@ -36,7 +36,8 @@ def numeric_locals(fn):
 def rule_paired_borders(chk, prog):
     r = chk.rule("PAIRED-BORDERS", "in removeoverlaps(rs, fixed, thirdPass) every call Rectangle::set{X,Y}Border(v) with v other than the "
                  "entry-time border is followed on every normal path to the exit by set{X,Y}Border(<local initialised from the border "
-                 "at entry and never reassigned>)", floor=2)
+                 "at entry and never reassigned>); the changes happen inside a try block that has a catch-all handler, and every handler "
+                 "puts both borders back before it rethrows or falls through (the solver can throw while the border is enlarged)", floor=5)
     fn = prog.fn(RO, sig="bool")
     g = CFG(fn)
     sal = single_assignment_locals(fn)
@@ -100,6 +101,38 @@ def rule_paired_borders(chk, prog):
             r.ok("%s-border" % axis, fn.where(), "%d modifying, %d restoring calls" % (len(modifying), len(restoring)))
             chk.sample({"rule": "PAIRED-BORDERS", "axis": axis, "modifying_calls": [fn.loc(m) for m in modifying],
                         "restoring_calls": [fn.loc(c) for c in restoring]})
+        # exceptional exits: the solver may throw (vpsc::UnsatisfiedConstraint) while the border is enlarged
+        from ..facts import walk as _walk2
+        for m in modifying:
+            tries = [a for a in fn.ancestors(m) if a.get("k") == "CXXTryStmt"]
+            r.count()
+            inst = "%s-border restored when an exception leaves the pass (line %s)" % (axis, fn.loc(m).rsplit(":", 1)[-1])
+            if not tries:
+                r.bad(inst, fn.loc(m), "the border is changed outside any try block: an exception from the solver leaves it changed for the rest of the process")
+                continue
+            hs = tries[0].get("handlers", [])
+            if not any(h.get("ct") in (None, "<null>") and h.get("var") is None for h in hs):
+                r.bad(inst, fn.loc(tries[0]), "the try block has no catch-all handler: an exception of another type (vpsc::UnsatisfiedConstraint) "
+                      "leaves the function with the %s border still enlarged" % axis)
+                continue
+            lacking = None
+            for h in hs:
+                top = [x for x in (h.get("body") or {}).get("ch", [])]
+                ok_ = False
+                for st in top:
+                    st_ = strip(st)
+                    if st_ is not None and st_.get("cname") == setter:
+                        a = strip_casts(call_args(st_)[0])
+                        if a is not None and a.get("k") == "DeclRefExpr" and a.get("did") in saved:
+                            ok_ = True
+                    if st_ is not None and st_.get("k") in ("CXXThrowExpr", "ReturnStmt") and not ok_:
+                        break
+                if not ok_:
+                    lacking = h
+            if lacking is not None:
+                r.bad(inst, fn.loc(lacking), "this handler does not put the %s border back (unconditionally, before it rethrows / falls through)" % axis)
+            else:
+                r.ok(inst, fn.loc(tries[0]), "%d handlers" % len(hs))
 
 
 SYMS = ["minX", "maxX", "minY", "maxY"]
@@ -385,6 +418,90 @@ def rule_neighbour_twins(chk, prog):
         r.ok("left / right neighbour classification", fl.where(), "%d tests" % len(sl))
 
 
+def rule_copyback(chk, prog):
+    """Every solved position reaches its rectangle."""
+    from ..facts import walk
+    from ..astq import call_object
+    r = chk.rule("RESULT-COPYBACK", "removeoverlaps: after each of its solves, the loop that copies Variable::finalPosition back moves EVERY rectangle "
+                 "(no iteration can skip moveCentreX / moveCentreY), the loop runs over all of vs and rs in step, and the value moved to is that "
+                 "variable's finalPosition -- the separation constraints were solved for all variables, the heavily weighted `fixed` ones "
+                 "included, so a rectangle left where it was is no longer covered by them; every Solver::solve is followed by such a loop", floor=7)
+    fn = [f for f in prog.fns(RO) if len(f.params) == 3]
+    if len(fn) != 1:
+        raise AnalysisBroken("removeoverlaps(rs, fixed, thirdPass) not found")
+    fn = fn[0]
+    g = CFG(fn)
+    movers = [c for c in calls(fn) if c.get("cname") in ("vpsc::Rectangle::moveCentreX", "vpsc::Rectangle::moveCentreY")]
+    if len(movers) < 3:
+        raise AnalysisBroken("removeoverlaps: expected three copy-back loops, found %d mover calls" % len(movers))
+    publishing = []
+    for c in movers:
+        loops = [a for a in fn.ancestors(c) if a.get("k") in ("ForStmt", "WhileStmt", "CXXForRangeStmt")]
+        r.count()
+        inst = "%s at line %s" % (c["cname"].split("::")[-1], fn.loc(c).rsplit(":", 1)[-1])
+        if not loops:
+            r.bad(inst, fn.loc(c), "the mover is not applied in a loop over the rectangles")
+            continue
+        lp = loops[0]
+        bad = None
+        skip = g.iteration_can_skip(lp, [c["id"]])
+        if skip is not None:
+            bad = "an iteration of the copy-back loop can end without moving its rectangle (%s)" % (skip,)
+        cond, inc = norm(lp.get("cond")), norm(lp.get("inc"))
+        init = norm(lp.get("init"))
+        whole = any(t_ in cond for t_ in ("vs.end()", "rs.end()", ".size()", "< n)")) and "&&" not in cond and "||" not in cond
+        if bad is None and not (whole and inc and "begin()" in init or (whole and inc and "= 0" in init)):
+            bad = "the loop does not step through all of vs and rs together (init `%s`, cond `%s`, step `%s`)" % (init, cond, inc)
+        arg = norm(call_args(c)[0])
+        if arg in ("v.*.finalPosition", "(v.*).finalPosition"):
+            publishing.append(lp)
+        if bad is None and norm(call_object(c)) not in ("r.*", "(r.*)"):
+            bad = "the mover is applied to `%s`, not to the rectangle the loop is at" % norm(call_object(c))
+        (r.bad if bad else r.ok)(inst, fn.loc(c), bad or "")
+    solves = [c for c in calls(fn) if c.get("cname") == "vpsc::Solver::solve"]
+    if len(solves) < 3:
+        raise AnalysisBroken("removeoverlaps: expected three solves, found %d" % len(solves))
+    for sv in solves:
+        r.count()
+        heads = [x["id"] for lp_ in publishing for x in walk(lp_.get("cond") or {}) if x.get("id") in g.pos]
+        miss = g.must_follow(sv["id"], heads) if heads else "no copy-back loop"
+        (r.ok if miss is None else r.bad)("solve at line %s is published" % fn.loc(sv).rsplit(":", 1)[-1], fn.loc(sv), "" if miss is None else
+                                         "after this solve a path reaches the end of removeoverlaps without moving the rectangles to the variables' finalPosition (%s)" % (miss,))
+
+
+def rule_overlap_amount(chk, prog):
+    """overlapX / overlapY decide in which dimension the first pass separates a pair: they must be the separation still missing."""
+    import itertools
+    r = chk.rule("OVERLAP-AMOUNT", "Rectangle::overlapX / overlapY interpreted on every pair of intervals with end points on a grid of 6 (all order "
+                 "types of the four end points and the two centres, nested and equal intervals included), borders 0 and 1/2: the value is "
+                 "max(0, (extent(u)+extent(v))/2 - |centre(u)-centre(v)|), i.e. by how much the separation constraint that "
+                 "generateX/YConstraints emits for the pair is still violated -- for nested rectangles that is MORE than the length of the "
+                 "intersection, and the first pass compares the two amounts to choose the cheaper dimension", floor=4)
+    from ..microai.interp import default_obj
+    for axis in ("X", "Y"):
+        fn = prog.fn("vpsc::Rectangle::overlap" + axis)
+        for border in (Fraction(0), Fraction(1, 2)):
+            n = 0
+            bad = None
+            ivs = [(a, b) for a in range(6) for b in range(a + 1, 7)]
+            for (a, b), (c, d) in itertools.product(ivs, ivs):
+                def R(lo, hi):
+                    f = {"minX": Fraction(0), "maxX": Fraction(3), "minY": Fraction(0), "maxY": Fraction(3), "overlap": False}
+                    f["min" + axis], f["max" + axis] = Fraction(lo), Fraction(hi)
+                    return default_obj(prog, "vpsc::Rectangle", f)
+                it = Interp(prog, Oracle([]), globals={"vpsc::Rectangle::xBorder": Box(border), "vpsc::Rectangle::yBorder": Box(border)})
+                try:
+                    got = it.call(fn, R(a, b), None, None, arg_values=[R(c, d)])
+                except Unsupported as e:
+                    raise AnalysisBroken("Rectangle::overlap%s outside the interpreter subset: %s" % (axis, e))
+                n += 1
+                want = max(Fraction(0), Fraction(b - a + d - c, 2) + 2 * border - abs(Fraction(a + b, 2) - Fraction(c + d, 2)))
+                if Fraction(got) != want and bad is None:
+                    bad = "[%d,%d] against [%d,%d] (border %s): returns %s, the pair's separation constraint is violated by %s" % (a, b, c, d, border, got, want)
+            r.count(n)
+            (r.bad if bad else r.ok)("overlap%s, border %s" % (axis, border), fn.where(), bad or "%d pairs" % n)
+
+
 def run(chk):
     prog = chk.load()
     PROG[0] = prog
@@ -395,6 +512,8 @@ def run(chk):
     chk.guard(rule_gap_shape, chk, prog)
     chk.guard(rule_order, chk, prog)
     chk.guard(rule_neighbour_twins, chk, prog)
+    chk.guard(rule_copyback, chk, prog)
+    chk.guard(rule_overlap_amount, chk, prog)
     from .c01 import rule_solve_uses_satisfy
     chk.guard(rule_solve_uses_satisfy, chk, prog)       # removeoverlaps publishes what Solver::solve leaves in finalPosition
     from ..rules import mirrors
